@@ -494,6 +494,8 @@ def fam_valid_mut_soup(nv, nm, ns, styles=("random", "comments", "crlf")):
         cases = pfam.valid_cases(progs, styles)
         if nm:
             cases += pfam.mutant_cases(progs, nm)
+            small, _, _ = pfam.gen_programs(seed_of(run) + 7, budget(run, 60, 400), budgets=(8, 12, 15))
+            cases += pfam.systematic_mutants(small)
         if ns:
             cases += pfam.soup_cases(seed_of(run), budget(run, ns, ns * 6))
         return cases
@@ -527,7 +529,7 @@ check_c11 = parser_check(
     "generated valid programs rendered with comments in random gaps (style comments: line and general comments, multi-byte, "
     "inside type-parameter lists, interface and struct bodies, at line ends) and accepted mutants; the comment tokens of the hook's "
     "token dump must equal File.comments (offset and text); non-trivial = accepted inputs containing at least one comment",
-    fam_valid_mut_soup(300, 1, 0, styles=("comments", "comments", "random")),
+    lambda run: fam_valid_mut_soup(300, 1, 0, styles=("comments", "comments", "random"))(run) + pfam.comment_injection_cases(),
     nontrivial=lambda c, l: l.startswith("OK ") and ("/*" in c.src or "//" in c.src))
 
 
@@ -787,6 +789,58 @@ def check_c13(run, replay):
     fam.finish(broken)
 
 
+# ---------------------------------------------------------------- C14
+
+def check_c14(run, replay):
+    import goprint
+    run.trusted = vlib.BASE_TRUST + ["tools/goprint.py: the straightforward printer (adds no parentheses, prints every field of the tree)"]
+    gv, gm, _ = prepare(run)
+
+    def roundtrip(fam, cases, impl):
+        acc = [(c, l) for c, l in zip(cases, impl) if l.startswith("OK ")]
+        printed = []
+        for c, l in acc:
+            try:
+                printed.append(goprint.print_file(pfam.tree_of(l)))
+            except goprint.PrintError as e:
+                printed.append("\x00unprintable: %s" % e)
+        pcases = [pfam.Case(p, "F-printed", note=c.src) for (c, l), p in zip(acc, printed)]
+        for pc, (c, l) in zip(pcases, acc):
+            pc.expected = pfam.proj_shape(l)
+        impl2, mod2, toks2 = fam.exec(pcases)
+
+        def oracle(pc, line, tl):
+            if pc.src.startswith("\x00"):
+                return "the tree cannot be printed: " + pc.src[1:]
+            if not line.startswith("OK "):
+                return "the printed tree is rejected (%s); original source: %r" % (line[:60], pc.note[:300])
+            sh = pfam.proj_shape(line)
+            if sh != pc.expected:
+                return "re-parsing the printed tree gives another tree: %s; original source: %r" % (
+                    pfam.sexpr.first_diff(pc.expected, sh), pc.note[:300])
+            return None
+        fam.judge(pcases, impl2, mod2, toks2, "shape", oracle, "print and re-parse reproduces the tree")
+        return pcases
+
+    if replay:
+        r = replay_parse(run, replay, gv, gm)
+        return
+    broken = prove(run, "theories/props/C14.v")
+    fam = Families(run, gv, gm)
+    progs, hit, labels = pfam.gen_programs(seed_of(run), budget(run, 300, 2000))
+    cases = pfam.valid_cases(progs, ("random",)) + pfam.mutant_cases(progs, 6) + pfam.soup_cases(seed_of(run), budget(run, 2000, 20000))
+    impl, mod, toks = fam.exec(cases)
+    fam.judge(cases, impl, mod, toks, "shape", None, "first parse (crate == model)")
+    pcases = roundtrip(fam, cases, impl)
+    run.cov["rule"] = ("generated valid programs, their 1-3 token mutants and token soup are parsed by the crate; every ACCEPTED tree is printed "
+                       "back to Go source by a straightforward printer (tools/goprint.py: no parentheses of its own, every field printed) and "
+                       "parsed again by crate and model; the second tree must equal the first up to positions and comments; "
+                       "non-trivial = accepted inputs (each gives one print/re-parse)")
+    run.cov["samples"] = [c.src[:300] for c in pcases[:: max(1, len(pcases) // 5)]][:5]
+    fam.nontrivial = set(hash(c.src) for c in pcases)
+    fam.finish(broken)
+
+
 KNOWN_CLASSIFIERS = {"KF-5": kf5, "KF-21": kf21}
 
 REGISTRY = {
@@ -803,4 +857,5 @@ REGISTRY = {
     "C02": check_c02,
     "C03": check_c03,
     "C13": check_c13,
+    "C14": check_c14,
 }
